@@ -57,6 +57,8 @@ def floors(tier):
         "cls:np_scalar": f,
         "cls:nested_deep": f,
         "cls:unicode": f,
+        "cls:unicode_line_boundary": f,
+        "read_back_through_LocalBackend.stdout": 10 * f,
         "noise:no_newline_before_report": f,
         "rejected:reserved_key": f // 2,
         "rejected:unserialisable": f // 2,
@@ -72,7 +74,7 @@ NP_SCALARS = [
 NASTY_STR = [
     "{", "}", "{}", "}{", "[", "]", '"', "'", "\\", "\n", "\r", "\r\n", "\t", "{\"a\": 1}",
     "]: {", "tune-metric", "[tune-metric", "tune-metric]: {}", TAG + ": {\"x\": 1}", TAG,
-    "é", "日本", " ", "\x00", "😀", "NaN", "Infinity", "null", "}\n" + TAG + ": {\"forged\": 1}",
+    "é", "日本", " ", "\x00", "\u2029", "\x85", "\x0b", "\x0c", "\x1c", "\x1d", "\x1e", "a\u2028}b", "😀", "NaN", "Infinity", "null", "}\n" + TAG + ": {\"forged\": 1}",
 ]
 
 
@@ -91,6 +93,8 @@ def _rand_str(rng, classes):
                 classes.add("brace_string")
             if any(ord(c) > 127 for c in s):
                 classes.add("unicode")
+            if any(c in s for c in "\u2028\u2029\x85\x0b\x0c\x1c\x1d\x1e"):
+                classes.add("unicode_line_boundary")
         else:
             parts.append("".join(rng.choice("abc xyz019_-:") for _ in range(rng.randint(0, 6))))
     return "".join(parts)
@@ -192,13 +196,33 @@ def _noise(rng, classes):
     return s + ("\n" if nl else ""), nl
 
 
+_BE = {}
+
+
+def _backend():
+    """One LocalBackend per worker process (only its path handling and stdout() are used)."""
+    be = _BE.get(os.getpid())
+    if be is None:
+        from syne_tune.backend import LocalBackend
+
+        be = LocalBackend(entry_point=os.path.abspath(__file__))
+        be.set_path(results_root=envshim.scratch_dir(), tuner_name=f"c18-{os.getpid()}")
+        _BE.clear()
+        _BE[os.getpid()] = be
+    return be
+
+
 def run_case(spec):
     from syne_tune.report import Reporter, retrieve
     from syne_tune.constants import ST_WORKER_ITER, ST_WORKER_TIMESTAMP, ST_WORKER_TIME
 
     o = Obs()
     rng = random.Random(spec["seed"])
-    path = os.path.join(envshim.scratch_dir(), f"c18_{os.getpid()}.out")
+    # the file is the std.out of trial 0 of a real LocalBackend and is read back through its stdout() method
+    be = _backend()
+    tdir = str(be.trial_path(trial_id=0))
+    os.makedirs(tdir, exist_ok=True)
+    path = os.path.join(tdir, "std.out")
     expected = []  # accepted reports, normalised
     script_sig = []
     hostile = False
@@ -292,8 +316,8 @@ def run_case(spec):
     finally:
         sys.stdout = real_stdout
         f.close()
-    with open(path, "r") as fh:
-        lines = fh.readlines()
+    lines = be.stdout(0)
+    o.count("read_back_through_LocalBackend.stdout")
     os.unlink(path)
     try:
         got = retrieve(log_lines=lines)
